@@ -25,7 +25,7 @@ theorem lookupArr_inBindsFrom (pt : Idx) : ∀ (as : List (Arr Val)) (k0 j : Nat
     have e : k0 + 1 + j = k0 + (j + 1) := by omega
     rw [e] at ih
     simp only [Env.lookupArr, idxEnv] at ih ⊢
-    simp only [inBindsFrom, List.find?_cons, beq_iff_eq, hne, List.getElem?_cons_succ]
+    rw [inBindsFrom, List.find?_cons_of_neg (by simpa using hne), List.getElem?_cons_succ]
     exact ih
 
 theorem lookupArr_inBinds (pt : Idx) (as : List (Arr Val)) (j : Nat) :
@@ -41,17 +41,23 @@ theorem cmp_eq_nat (j k : Nat) :
   congr 1
   by_cases h : j = k
   · simp [h]
-  · have : ¬ (((j : Int) : Rat) = ((k : Int) : Rat)) := by
-      rw [Rat.intCast_inj]; omega
-    simp [h, this]
+  · simp [h]
 
 theorem cmp_lt_nat (j k : Nat) :
     Val.cmp .lt (.i (j : Nat)) (.i (k : Nat)) = .b (decide (j < k)) := by
   simp only [Val.cmp, Val.toRat?]
   congr 1
-  have : (((j : Int) : Rat) < ((k : Int) : Rat)) ↔ j < k := by
-    rw [Rat.intCast_lt_intCast]; omega
-  simp [this]
+  simp
+
+/-! ### conditionals -/
+
+theorem eval_ite_true (env : Env) (c t e : SExpr) (h : eval env c = .b true) :
+    eval env (.ite c t e) = eval env t := by
+  simp only [eval, h, Val.truthy?]
+
+theorem eval_ite_false (env : Env) (c t e : SExpr) (h : eval env c = .b false) :
+    eval env (.ite c t e) = eval env e := by
+  simp only [eval, h, Val.truthy?]
 
 /-! ### subscripts -/
 
@@ -79,8 +85,8 @@ theorem filter_ne_map_getD : ∀ (l : List Nat) (axis : Nat),
   | x :: xs, 0 => by
     have h := map_range_getD xs
     simp only [List.length_cons, List.range_succ_eq_map, List.filter_cons, List.filter_map,
-      List.map_map, List.eraseIdx_cons_zero]
-    simp only [ne_eq, decide_not, not_true_eq_false, decide_false, Bool.not_false,
+      List.eraseIdx_cons_zero]
+    simp only [ne_eq, decide_not, not_true_eq_false, decide_false,
       Bool.false_eq_true, if_false]
     have : (List.filter ((fun x => !decide (x = 0)) ∘ Nat.succ) (List.range xs.length))
         = List.range xs.length := by
@@ -88,12 +94,13 @@ theorem filter_ne_map_getD : ∀ (l : List Nat) (axis : Nat),
       intro a _; simp
     rw [this]
     conv => rhs; rw [← h]
+    rw [List.map_map]
     apply List.map_congr_left
     intro a _; simp
   | x :: xs, a + 1 => by
     have ih := filter_ne_map_getD xs a
     simp only [List.length_cons, List.range_succ_eq_map, List.filter_cons, List.filter_map,
-      List.map_map, List.eraseIdx_cons_succ]
+      List.eraseIdx_cons_succ]
     have h0 : decide ((0 : Nat) ≠ a + 1) = true := by simp
     simp only [h0, if_true, List.map_cons, List.getD_cons_zero]
     congr 1
@@ -102,7 +109,7 @@ theorem filter_ne_map_getD : ∀ (l : List Nat) (axis : Nat),
         = List.filter (fun x => decide (x ≠ a)) (List.range xs.length) := by
       apply List.filter_congr
       intro y _; simp
-    rw [this]
+    rw [this, List.map_map]
     apply List.map_congr_left
     intro y _; simp
 
@@ -143,23 +150,22 @@ theorem eval_stackFrom (env : Env) (axis nd : Nat) (subscript : List SExpr) (j :
         simp only [eval, ivar, hpt]
         exact cmp_eq_nat j i
       by_cases hji : j = i
-      · rw [eval, hc]; simp [Val.truthy?, hji]
-      · rw [eval, hc]
-        simp only [Val.truthy?, hji, decide_false]
+      · rw [eval_ite_true _ _ _ _ (by simp [hc, hji]), hji]
+      · rw [eval_ite_false _ _ _ _ (by simp [hc, hji])]
         exact eval_stackFrom env axis nd subscript j hpt k (i + 1) (by omega) (by omega)
 
 /-! ### concatenate -/
 
 theorem concatLocate_spec : ∀ (lens : List Nat) (j : Nat), j < lens.sum →
-    ∃ k o, concatLocate lens j = some (k, o) ∧ k < lens.length ∧ o < lens.getD k 0
+    ∃ k o, concatLocate lens j = some (k, o) ∧ k < lens.length ∧ o < lens.getD k 0 ∧ o ≤ j
   | [], j, h => by simp at h
   | n :: ns, j, h => by
     unfold concatLocate
     by_cases hj : j < n
-    · exact ⟨0, j, by simp [hj], by simp, by simpa using hj⟩
+    · exact ⟨0, j, by simp [hj], by simp, by simpa using hj, Nat.le_refl _⟩
     · simp only [hj, if_false]
-      obtain ⟨k, o, h1, h2, h3⟩ := concatLocate_spec ns (j - n) (by simp at h; omega)
-      exact ⟨k + 1, o, by simp [h1], by simpa using h2, by simpa using h3⟩
+      obtain ⟨k, o, h1, h2, h3, h4⟩ := concatLocate_spec ns (j - n) (by simp at h; omega)
+      exact ⟨k + 1, o, by simp [h1], by simpa using h2, by simpa using h3, by omega⟩
 
 /-- index expressions of one `get_subscript(array_index, lbound)` -/
 def shiftIx (axis nd lb : Nat) : List SExpr :=
@@ -197,7 +203,7 @@ theorem eval_concatFrom (pt : Idx) (b : List (String × Arr Val)) (axis : Nat)
       obtain ⟨rfl, rfl⟩ := h
       have e : pt.getD axis 0 - (pt.getD axis 0 - lb) = lb := by omega
       simp only [concatFrom, Nat.add_zero, e, shiftIx]
-    · simp [hj, concatLocate] at h
+    · rw [if_neg hj] at h; simp [concatLocate] at h
   | n :: m :: rest, i, lb, k, o, hlb, h => by
     unfold concatLocate at h
     have hc : eval (idxEnv pt b) (.cmp .lt (ivar axis) (.int ((lb + n : Nat) : Int)))
@@ -209,21 +215,22 @@ theorem eval_concatFrom (pt : Idx) (b : List (String × Arr Val)) (axis : Nat)
       obtain ⟨rfl, rfl⟩ := h
       have e : pt.getD axis 0 - (pt.getD axis 0 - lb) = lb := by omega
       have hlt : pt.getD axis 0 < lb + n := by omega
-      rw [concatFrom, eval, hc]
-      simp only [Val.truthy?, hlt, decide_true, Nat.add_zero, e, shiftIx]
+      rw [concatFrom]
+      · rw [eval_ite_true _ _ _ _ (by rw [hc, decide_eq_true hlt])]
+        simp only [Nat.add_zero, e, shiftIx]
+      · simp
     · simp only [hj, if_false, Option.map_eq_some_iff] at h
       obtain ⟨⟨k', o'⟩, h1, h2⟩ := h
       simp only [Prod.mk.injEq] at h2
       obtain ⟨rfl, rfl⟩ := h2
       have hlt : ¬ pt.getD axis 0 < lb + n := by omega
-      rw [concatFrom, eval, hc]
-      simp only [Val.truthy?, hlt, decide_false]
       have e : pt.getD axis 0 - lb - n = pt.getD axis 0 - (lb + n) := by omega
       rw [e] at h1
       have := eval_concatFrom pt b axis hax (m :: rest) (i + 1) (lb + n) k' o' (by omega) h1
-      rw [this]
       have e2 : i + 1 + k' = i + (k' + 1) := by omega
-      rw [e2]
+      rw [concatFrom]
+      · rw [eval_ite_false _ _ _ _ (by rw [hc, decide_eq_false hlt]), this, e2]
+      · simp
 
 /-- replacing the axis entry of an in-bounds index by an in-bounds entry of a
     shape that differs only along that axis -/
